@@ -470,8 +470,8 @@ SimRegistrar tgreg(&tgscen);
 C20IPlan iplan;
 bool written;
 const char *no_faults[] = {nullptr};
-enum { PI_SINGLE_ROW = 0, PI_SINGLE_COL, PI_NONSQUARE };
-const char *iprobe_names[] = {"single_row", "single_column", "non_square", nullptr};
+enum { PI_SINGLE_ROW = 0, PI_SINGLE_COL, PI_NONSQUARE, PI_WIDE };
+const char *iprobe_names[] = {"single_row", "single_column", "non_square", "width_above_4000", nullptr};
 const char *fmtname[] = {"PPM", "PGM", "PFM<float>", "PFM<vec3f>", "PFM<vec3fa>", "PFM<vec4f>"};
 
 void ireset()
@@ -493,6 +493,11 @@ void iplan_fn(int tier)
     iplan.w = 1;
   if (k == 1)
     iplan.h = 1;
+  if (sim_plan(14) == 0) {  // rows far wider than any fixed-size staging buffer
+    iplan.w = 4000 + (int)sim_plan(5200);
+    iplan.h = 1 + (int)sim_plan(2);
+    sim_probe(PI_WIDE);
+  }
   iplan.seed = (int)sim_plan(200);
 }
 inline unsigned char bytev(int x, int y, int c, int seed) { return (unsigned char)(x * 7 + y * 13 + c * 50 + seed); }
